@@ -15,6 +15,20 @@ class Res(wiring.Component):
         super().__init__({})
 
 
+class EqRes(wiring.Component):
+    """distinct resource objects that compare (and hash) equal — two instances of the same peripheral
+    register; a memory map tells resources apart by identity"""
+    def __init__(self, tag):
+        super().__init__({})
+        self.tag = tag
+
+    def __eq__(self, other):
+        return isinstance(other, EqRes) and other.tag == self.tag
+
+    def __hash__(self):
+        return hash(("EqRes", self.tag))
+
+
 def enc_name(n):
     if n is None:
         return "-"
@@ -157,10 +171,16 @@ def gen_case(seed, idx, profile, k=None):
         ops.append(("new", h, aw, dw, al))
         return h
 
+    used_names = []
+
     def name():
-        if unique_names:          # C02/C03 histories: naming never decides acceptance
+        if unique_names:          # C02/C03 histories: naming (almost) never decides acceptance
             ucount[0] += 1
-            return ("n%d" % ucount[0],) if rnd.random() < 0.7 else ("n%d" % ucount[0], rnd.randrange(3))
+            nm = ("n%d" % ucount[0],) if rnd.random() < 0.7 else ("n%d" % ucount[0], rnd.randrange(3))
+            if profile == "alloc" and used_names and rnd2.random() < 0.05:
+                return rnd2.choice(used_names)        # … except now and then: a call refused for its NAME must not leave its range behind
+            used_names.append(nm)
+            return nm
         return gen_name(rnd)
 
     shared = []          # (child handle, sparse) of maps already used as a window once
@@ -243,6 +263,13 @@ def gen_case(seed, idx, profile, k=None):
                     # first an attempt that fails for an address reason, then the same window (same name)
                     # again: the refused call must not have reserved anything
                     ops.append(("win", h, ch, wname, (1 << aw) - (1 << max(0, caw - 1)), sparse))
+                    if rnd2.random() < 0.5 and caw >= 6:
+                        # the refused child is still open: it may absorb another anonymous window before the retry
+                        g = new(caw - 4, cdw, 0)
+                        rid = nres[0]
+                        nres[0] += 1
+                        ops.append(("res", g, rid, gen_name(rnd2), 1, None, None))
+                        ops.append(("win", ch, g, None, None, None))
                 ops.append(("win", h, ch, wname, waddr, sparse))
                 shared.append((ch, sparse, caw, dw))
                 if rnd.random() < 0.1:
@@ -296,7 +323,8 @@ def run_impl(case):
     ops = case["ops"]
     rnd = lib.random.Random(1)
     maps, keep = {}, []
-    objs = [Res() for _ in range(case["nres"])]
+    eqr = lib.random.Random(case["nres"] * 7919 + len(ops))
+    objs = [(EqRes(eqr.randrange(3)) if case["profile"] == "tree" and eqr.random() < 0.3 else Res()) for _ in range(case["nres"])]
     ids = {id(x): i for i, x in enumerate(objs)}
     lines, obs, fails = ["case"], [], []
     stats = {"ops": 0, "refused": 0, "inserted_not_last": 0, "win": 0, "dense": 0, "anon": 0,
@@ -315,11 +343,11 @@ def run_impl(case):
             for i in m.all_resources())
 
     def fmt_res(m):
-        return "resources " + " ".join(f"{ids[id(r)]}@{enc_name(tuple(n))}:{s}-{e}" for r, n, (s, e) in m.resources())
+        return "resources " + " ".join(f"{ids.get(id(r), '?')}@{enc_name(tuple(n))}:{s}-{e}" for r, n, (s, e) in m.resources())
 
     def fmt_win(m, h):
         return "windows " + " ".join(
-            f"{wchild[(h, id(w))]}@{enc_name(None if n is None else tuple(n))}:{s}-{e}/{r}"
+            f"{wchild.get((h, id(w)), '?')}@{enc_name(None if n is None else tuple(n))}:{s}-{e}/{r}"
             for w, n, (s, e, r) in m.windows())
 
     def snapshot(h):
